@@ -438,31 +438,39 @@ func valueWhitelist(fd *ast.FuncDecl) (good []string, unaryArrowRejected bool, c
 
 // zeroBasic: the BasicInfo flags and basic kinds the `case *types.Basic` of zeroValue tests for.
 func zeroBasic(fd *ast.FuncDecl) (flags, kinds []string) {
+	// Every BasicInfo flag and basic kind the `case *types.Basic` of zeroValue mentions, whether in the cases of an
+	// inner switch or in the conditions of an if chain; composite flags are expanded into their components.
+	composite := map[string][]string{
+		"IsNumeric":   {"IsInteger", "IsFloat", "IsComplex"},
+		"IsOrdered":   {"IsInteger", "IsFloat", "IsString"},
+		"IsConstType": {"IsBoolean", "IsInteger", "IsFloat", "IsComplex", "IsString"},
+	}
 	seenF, seenK := map[string]bool{}, map[string]bool{}
 	ast.Inspect(fd.Body, func(n ast.Node) bool {
 		cc, ok := n.(*ast.CaseClause)
 		if !ok || len(cc.List) != 1 || text(cc.List[0]) != "*types.Basic" {
 			return true
 		}
-		ast.Inspect(cc, func(m ast.Node) bool {
-			inner, ok := m.(*ast.CaseClause)
-			if !ok || inner == cc || inner.List == nil {
-				return true
-			}
-			for _, e := range inner.List {
-				ast.Inspect(e, func(x ast.Node) bool {
-					if sel, ok := x.(*ast.SelectorExpr); ok && text(sel.X) == "types" {
-						if strings.HasPrefix(sel.Sel.Name, "Is") {
-							seenF[sel.Sel.Name] = true
-						} else {
-							seenK[sel.Sel.Name] = true
-						}
-					}
+		for _, st := range cc.Body {
+			ast.Inspect(st, func(x ast.Node) bool {
+				sel, ok := x.(*ast.SelectorExpr)
+				if !ok || text(sel.X) != "types" {
 					return true
-				})
-			}
-			return true
-		})
+				}
+				name := sel.Sel.Name
+				switch {
+				case composite[name] != nil:
+					for _, f := range composite[name] {
+						seenF[f] = true
+					}
+				case strings.HasPrefix(name, "Is"):
+					seenF[name] = true
+				case name != "Basic" && name != "BasicInfo" && name != "BasicKind" && name != "TypeString" && name != "Typ":
+					seenK[name] = true
+				}
+				return true
+			})
+		}
 		return false
 	})
 	for f := range seenF {
@@ -511,6 +519,12 @@ func zeroKinds(fd *ast.FuncDecl) (cases [][2]string, defaultPanics bool) {
 		}
 		for _, t := range caseTypes(cc) {
 			cases = append(cases, [2]string{t, what})
+		}
+	}
+	// no default clause, but whatever falls out of the switch runs into a panic at the end of the function
+	if n := len(fd.Body.List); !defaultPanics && n > 0 {
+		if es, ok := fd.Body.List[n-1].(*ast.ExprStmt); ok && strings.HasPrefix(text(es.X), "panic(") {
+			defaultPanics = true
 		}
 	}
 	return
